@@ -19,11 +19,42 @@ from .common import callee_short, const_int
 POS_METHODS = ("substr", "compare", "erase", "insert", "replace", "at")
 
 
+_ALIAS = {}   # decl id -> X, for locals `n = X.size()` of the function being judged
+
+
+def size_aliases(fn):
+    """Locals initialised from X.size()/X.length() and never written again."""
+    cand = {}
+    for n in fn.walk():
+        if n.get("k") == "decls":
+            for d in n["d"]:
+                i = strip_casts(d.get("init")) if d.get("init") else None
+                if i is not None and i.get("k") == "call" and "this" in i and callee_short(i) in ("size", "length"):
+                    cand[d["d"]] = show(peel(i["this"]))
+    for n in fn.walk():
+        tgt = None
+        if n.get("k") == "bin" and n.get("op", "").endswith("=") and n.get("op") not in ("==", "!=", "<=", ">="):
+            tgt = strip_casts(n["x"])
+        elif n.get("k") == "un" and ("++" in n.get("op", "") or "--" in n.get("op", "")):
+            tgt = strip_casts(n["e"])
+        if tgt is not None and tgt.get("k") == "ref" and tgt.get("d") in cand:
+            del cand[tgt["d"]]
+    return cand
+
+
+def _alias_of(fn, name):
+    for d, x in size_aliases(fn).items():
+        pass
+    return None
+
+
 def _size_call(n):
-    """If n is X.size()/X.length() return show(X)."""
+    """If n is X.size()/X.length() (or a local alias of it) return show(X)."""
     n = strip_casts(n)
     if n is not None and n.get("k") == "call" and "this" in n and callee_short(n) in ("size", "length"):
         return show(peel(n["this"]))
+    if n is not None and n.get("k") == "ref" and n.get("d") in _ALIAS:
+        return _ALIAS[n["d"]]
     return None
 
 
@@ -77,11 +108,17 @@ def _implies_size_ge(atom, pos, X, k, Y=None):
         return (ops == ">=" and cb >= k) or (ops == ">" and cb >= k - 1) or (ops == "==" and cb >= k)
     if sb == X and ca is not None:
         return (ops == "<=" and ca >= k) or (ops == "<" and ca >= k - 1) or (ops == "==" and ca >= k)
-    # X.substr(0, n) == "literal"
+    # X.substr(0, n) == "literal"   /   X == "literal"
     if ops == "==":
         for u, v in ((a, b), (b, a)):
             u = strip_casts(u)
             v = strip_casts(v)
+            if u is not None and u.get("k") in ("ref", "mem") and show(u) == X:
+                lit = v
+                if lit is not None and lit.get("k") == "ctor" and lit.get("a"):
+                    lit = strip_casts(lit["a"][0])
+                if lit is not None and lit.get("k") == "str" and lit.get("len", 0) >= k:
+                    return True
             if u is not None and u.get("k") == "call" and callee_short(u) == "substr" and "this" in u and show(peel(u["this"])) == X:
                 lit = v
                 if lit is not None and lit.get("k") == "ctor" and lit.get("a"):
@@ -100,10 +137,25 @@ def _implies_size_ge(atom, pos, X, k, Y=None):
 
 def guard_edges(fn, X, k, Y=None):
     from . import gates as G
+    _ALIAS.clear()
+    _ALIAS.update(size_aliases(fn))
     return G.edges_where(fn, lambda atom, truth: _implies_size_ge(atom, truth, X, k, Y))
 
 
+def judge_need(fn, node, X, k):
+    """Is `node` dominated by a test implying X.size() >= k?"""
+    edges = guard_edges(fn, X, k)
+    loc = fn.cfg.locate(node)
+    if loc is None:
+        return True, "unreachable", None
+    need = "%s.size() >= %d" % (X, k)
+    ok = loc[0] not in fn.cfg.reachable(cut_edges=edges)
+    return ok, ("guarded by a test implying %s" % need) if ok else ("no test implying %s dominates it" % need), need
+
+
 def sites(fn):
+    _ALIAS.clear()
+    _ALIAS.update(size_aliases(fn))
     """Yield (call node, method, classification or None) for position-taking string calls."""
     for n in fn.walk():
         if n.get("k") == "call" and n.get("f", "").startswith("std::basic_string::") and callee_short(n) in POS_METHODS and "this" in n:
@@ -118,6 +170,8 @@ def sites(fn):
 
 def judge(fn, call, cls):
     """-> (ok, description, need) for a classified site."""
+    _ALIAS.clear()
+    _ALIAS.update(size_aliases(fn))
     X = show(peel(call["this"]))
     if cls[0] == "lit":
         k = cls[1]
